@@ -103,6 +103,26 @@ fn case(c: &Case, rec: &mut Rec) {
                 // compositions bracket the feed
                 let (y, xl) = (f.vapor().molefracs[0], f.liquid().molefracs[0]);
                 rec.require("feed_between_phases", &name, (y - c.x) * (xl - c.x) <= 1e-12, || format!("feed x = {} not between y = {y} and x = {xl}", c.x));
+                // warm start from this equilibrium at a neighbouring temperature and pressure: whatever is returned must be an
+                // equilibrium at the NEW specification (the path taken through the initial state must not leak into the result)
+                for (dt, dp) in [(1.003, 1.0), (0.997, 1.0), (1.0, 1.01), (1.003, 0.99)] {
+                    let (t2, p2) = (t * dt, p * dp);
+                    let wname = format!("{name}|warm|dT={dt}|dp={dp}");
+                    for (via, res) in [("associated", PhaseEquilibrium::tp_flash(eos, t2, p2, &feed, Some(&f), Default::default(), None)), ("state", State::new_npt(eos, t2, p2, &feed, feos_core::DensityInitialization::None).and_then(|s| s.tp_flash(Some(&f), Default::default(), None)))] {
+                        match res {
+                            Ok(g) => {
+                                let wn = format!("{wname}|{via}");
+                                conditions(rec, &wn, &g);
+                                rec.require("spec_exact", &format!("{wn}|T"), g.vapor().temperature == t2 && g.liquid().temperature == t2, || format!("warm-started flash specified at {t2} returns phases at {} / {}", g.vapor().temperature, g.liquid().temperature));
+                                let ep = ((g.vapor().pressure(Contributions::Total) - p2) / p2).into_value().abs().max(((g.liquid().pressure(Contributions::Total) - p2) / p2).into_value().abs());
+                                rec.check("spec_exact", &format!("{wn}|p"), ep / 1e-7, true, || format!("warm-started flash pressure off by {ep:e}"));
+                                let bal = ((g.vapor().moles.clone() + g.liquid().moles.clone() - feed.clone()) / feed.sum()).into_value().iter().fold(0.0f64, |a, b| a.max(b.abs()));
+                                rec.check("material_balance", &wn, bal / 1e-12, true, || format!("v + l - feed = {bal:e} (relative)"));
+                            }
+                            Err(_) => rec.skip("warm-started flash fails or leaves the envelope (conditional)"),
+                        }
+                    }
+                }
             }
             Err(e) => {
                 if c.pair.in_domain {
@@ -224,6 +244,12 @@ fn lle_case(c: &(String, M), rec: &mut Rec) {
         Ok(d) => {
             for (i, s) in d.states.iter().enumerate() {
                 conditions(rec, &format!("lle_diagram|{i}"), s);
+                // every point is at the specified pressure and at a temperature of the requested grid
+                let ep = ((s.vapor().pressure(Contributions::Total) - p) / p).into_value().abs();
+                rec.check("spec_exact", &format!("lle_diagram|{i}|p"), ep / 1e-7, true, || format!("lle diagram point off the specified pressure by {ep:e}"));
+                let tk = s.vapor().temperature.to_reduced();
+                let on_grid = (0..5).any(|k| (tk - (300.0 + 25.0 * k as f64)).abs() < 1e-9);
+                rec.require("spec_exact", &format!("lle_diagram|{i}|T"), on_grid && s.liquid().temperature == s.vapor().temperature, || format!("lle diagram point at {tk} K is not on the requested temperature grid 300, 325, .., 400 K"));
             }
         }
         Err(_) => rec.skip("lle diagram fails (conditional)"),
